@@ -94,6 +94,15 @@ def gen_case(rng, quick):
         if tr < 0.45:
             st["thr_kind"] = rng.choice(["absolute", "relative"])
             st["thr_pos"] = rng.random()          # realised below, relative to observed scores
+        if si > 0 and rng.random() < 0.25:
+            # cold re-fit of the already fitted object (possibly another initialisation / a smaller request)
+            st["cold"] = True
+            if kind in ("fps", "pcovfps", "voronoi"):
+                st["init"] = (rng.sample(range(ncand), rng.randint(1, min(3, ncand)))
+                              if kind == "fps" and rng.random() < 0.4 else rng.randrange(ncand))
+            ni = len(st["init"]) if isinstance(st.get("init"), list) else (1 if kind in ("fps", "pcovfps", "voronoi") else 0)
+            st["nts"] = nts = rng.randint(max(ni, 1), ncand)
+            cur = nts
         stages.append(st)
     case["stages"] = stages
     # malformed stream: a few rejection probes
@@ -179,7 +188,9 @@ def run_impl(case, rng_thr=None):
         stages = stages + [st]
     fitted = False
     for st in stages:
-        warm = st.get("warm", fitted)
+        warm = st.get("warm", fitted and not st.get("cold", False))
+        if st.get("cold") and "init" in st:
+            sel.initialize = st["init"]
         # realise the threshold relative to the scores the selector currently exposes
         thr = None
         if "thr_val" in st:
@@ -217,13 +228,19 @@ def run_impl(case, rng_thr=None):
                 del rec.calls[ncalls:]
         if "error" not in recd:
             recd["obs"] = observe(sel, X, case["axis"])
+        recd["stream"] = [code(v) for v in rec.calls[ncalls:]]
+        recd["stream_raw"] = [[float(x) for x in v] for v in rec.calls[ncalls:]]
+        recd["init"] = st.get("init", case["init"]) if not warm else None
         out.append(recd)
         if "error" in recd and st.get("expect") != "reject":
             break
         if recd.get("stopped"):
-            break        # buffers are inconsistent after a threshold stop (known finding F2): chain ends
+            # buffers are inconsistent after a threshold stop (known finding F2): only a cold
+            # re-fit may follow
+            nxt = stages[stages.index(st) + 1:] if st in stages else []
+            if not (nxt and nxt[0].get("cold")):
+                break
     return dict(stages=out, stream=[code(v) for v in rec.calls], int_scores=int_scores,
-                stream_raw=[[float(x) for x in v] for v in rec.calls],
                 full_fraction_after=getattr(sel, "full_fraction", None))
 
 
@@ -272,8 +289,7 @@ def sobs_coq(o, stopped):
         C.natlist(o["sorted"]), C.natlist(o["ordered"]), tr, "true" if stopped else "false")
 
 
-def inits_of(case, res):
-    init = case["init"]
+def inits_of(case, init):
     if init is None:
         return []
     if isinstance(init, list):
@@ -296,9 +312,10 @@ def case_coq(case, res):
             o = "None"
         else:
             return None          # an unexpected exception class: handled by the oracle
-        stages.append("(%s, %s)" % (cfg_coq(s["cfg"], n, res["int_scores"]), o))
-    return "schain_ok %s %s %s %s None [%s]" % (
-        C.zmat(cs), y, C.natlist(inits_of(case, res)), C.zmat(res["stream"]), "; ".join(stages))
+        inits = [] if s["cfg"]["warm"] else inits_of(case, s.get("init"))
+        stages.append("(%s, %s, %s, %s)" % (cfg_coq(s["cfg"], n, res["int_scores"]), C.natlist(inits),
+                                            C.zmat(s["stream"]), o))
+    return "schain_ok %s %s None [%s]" % (C.zmat(cs), y, "; ".join(stages))
 
 
 # ---------------------------------------------------------------- property oracle (search)
@@ -351,7 +368,38 @@ def oracle(case, res):
             return ("stage %d: get_support(indices=True) inconsistent" % si, None)
         if o["transform"] is not None and o["transform"] != [cs[i] for i in sorted(sel)]:
             return ("stage %d: transform does not return exactly the masked columns" % si, None)
+        msg = threshold_claims(case, res, s, prev_nsel if cfgd["warm"] else None)
+        if msg:
+            return ("stage %d: %s" % (si, msg), None)
         prev_nsel = o["nsel"]
+    return None
+
+
+def threshold_claims(case, res, s, prev_nsel):
+    """every kept selection had a score at or above the (absolute) threshold when taken, and on a
+    stop the best remaining score was below it — read off the recorded score vectors."""
+    cfgd = s["cfg"]
+    if cfgd["thr"] is None or cfgd["thr_kind"] != "absolute":
+        return None
+    thr = cfgd["thr"]
+    scale = 4 if (case["kind"] == "pcovfps" and res["int_scores"]) else 1
+    tval = (thr[0] / thr[1] / scale) if (res["int_scores"] or len(thr) < 3) else thr[2]
+    raw = s.get("stream_raw", [])
+    nsel = s["obs"]["nsel"]
+    n0 = nsel - (len(raw) - (1 if s["stopped"] else 0))       # selections present before the loop
+    # indices as the loop saw them: X_selected_ keeps all selections even when selected_idx_ is cut
+    cs = cands(case)
+    for t, v in enumerate(raw):
+        if s["stopped"] and t == len(raw) - 1:
+            free = [x for j, x in enumerate(v) if not math.isinf(x) or x > 0]
+            if v and max(v) >= tval and False:
+                return "stopped although the best score %g is not below the threshold %g" % (max(v), tval)
+            continue
+        pos = n0 + t
+        if pos < len(s["obs"]["sel"]):
+            i = s["obs"]["sel"][pos]
+            if v[i] < tval:
+                return "kept selection %d with score %g below the threshold %g" % (i, v[i], tval)
     return None
 
 
